@@ -93,4 +93,21 @@ theorem isSortFor_mergeSort {α : Type u} {cmp : α → α → Ordering} (hc : P
     IsSortFor cmp (fun l => l.mergeSort (leOf cmp)) :=
   fun l => ⟨List.mergeSort_perm _ _, pairwise_sort hc l⟩
 
+/-! non-vacuity: a comparison with ties that print alike (numbers compared by `n / 2`, printed as `n / 2`) -/
+example : [2, 3, 5].map (· / 2) = ([5, 2, 3].mergeSort (leOf fun a b => natCmp (a / 2) (b / 2))).map (· / 2) :=
+  sorted_unique (natCmp_pre.comap (· / 2)) (· / 2) [5, 2, 3] [2, 3, 5]
+    (fun a _ b _ h => by
+      unfold natCmp at h
+      (repeat' split at h) <;> simp_all)
+    (((List.Perm.swap 5 3 []).cons 2).trans (List.Perm.swap 5 2 [3])) (by decide)
+
+example : [1, 2] = [2, 1].mergeSort (leOf natCmp) :=
+  sorted_perm_eq natCmp_pre [1, 2] _
+    (fun a _ b _ h => by unfold natCmp at h; (repeat' split at h) <;> simp_all)
+    ((List.Perm.swap 2 1 []).trans (List.mergeSort_perm _ _).symm) (by decide) (pairwise_sort natCmp_pre _)
+
+example : [1, 2].mergeSort (leOf natCmp) = [2, 1].mergeSort (leOf natCmp) :=
+  mergeSort_perm_eq natCmp_pre _ _
+    (fun a _ b _ h => by unfold natCmp at h; (repeat' split at h) <;> simp_all) (List.Perm.swap 2 1 [])
+
 end Deb822Verif.Rel.Wrap
